@@ -26,6 +26,9 @@ def legal_number(s):
 def legal_identifier(name):
     pass
 
+def _shellquote(c):
+    return c in '"`\''
+
 def removequotes(s, heredoc=False, doublequotes=False):
     r = ''
     sindex = 0
